@@ -456,30 +456,32 @@ macro_rules! pay_uuid_fmt {
 }
 pay_uuid_fmt!(uuid::fmt::Braced, braced; uuid::fmt::Hyphenated, hyphenated; uuid::fmt::Simple, simple; uuid::fmt::Urn, urn);
 
-/// id: 2 * address (IPv4) or 2 * address + 1 (IPv6); k = 0: the full-length prefix, k > 0: prefix length k - 1
-/// (host bits may be set: 192.168.1.5/24 is a value of its own)
-fn ipnet(id: u128, k: u32) -> Option<ipnetwork::IpNetwork> {
-    if id % 2 == 0 {
-        let a = u32::try_from(id / 2).ok()?;
-        let p = if k == 0 { 32 } else { u8::try_from(k - 1).ok()? };
-        Some(ipnetwork::IpNetwork::V4(ipnetwork::Ipv4Network::new(std::net::Ipv4Addr::from(a), p).ok()?))
+/// id = (2 * address [+ 1 for IPv6]) * 130 + p;  p = 0: the full-length prefix, p > 0: prefix length p - 1
+/// (host bits may be set: 192.168.1.5/24 is a value of its own, different from 192.168.1.0/24).  No `~k` part: in
+/// the equality checks k stands for a representation that does not take part in equality.
+fn ipnet(id: u128) -> Option<ipnetwork::IpNetwork> {
+    let (a, p) = (id / 130, (id % 130) as u32);
+    if a % 2 == 0 {
+        let addr = u32::try_from(a / 2).ok()?;
+        let len = if p == 0 { 32 } else { u8::try_from(p - 1).ok()? };
+        Some(ipnetwork::IpNetwork::V4(ipnetwork::Ipv4Network::new(std::net::Ipv4Addr::from(addr), len).ok()?))
     } else {
-        let p = if k == 0 { 128 } else { u8::try_from(k - 1).ok()? };
-        Some(ipnetwork::IpNetwork::V6(ipnetwork::Ipv6Network::new(std::net::Ipv6Addr::from(id / 2), p).ok()?))
+        let len = if p == 0 { 128 } else { u8::try_from(p - 1).ok()? };
+        Some(ipnetwork::IpNetwork::V6(ipnetwork::Ipv6Network::new(std::net::Ipv6Addr::from(a / 2), len).ok()?))
     }
 }
 impl Pay for ipnetwork::IpNetwork {
     fn parse(tok: &str) -> Self {
-        let (id, k) = split_id(tok);
-        ipnet(id, k).expect("ip network")
+        ipnet(split_id(tok).0).expect("ip network")
     }
     fn show(&self) -> String {
-        let (id, full) = match self {
+        let (a, full) = match self {
             ipnetwork::IpNetwork::V4(n) => (u32::from(n.ip()) as u128 * 2, 32),
             ipnetwork::IpNetwork::V6(n) => (u128::from(n.ip()) * 2 + 1, 128),
         };
-        let k = if self.prefix() == full { 0 } else { self.prefix() as u32 + 1 };
-        checked(join_id(id, k), self, ipnet(id, k))
+        let p = if self.prefix() == full { 0 } else { self.prefix() as u128 + 1 };
+        let id = a * 130 + p;
+        checked(join_id(id, 0), self, ipnet(id))
     }
 }
 fn mac(id: u128) -> mac_address::MacAddress {
